@@ -154,7 +154,7 @@ package authz
 //@   requires wf: HandlerOK(o) && log != nil && resp != nil
 //@   requires inv: StoreInv(View, Issued)
 //@   requires presented: oldSessionID == "" || oldSessionID == Presented
-//@   modifies resp.HttpResponse, resp.Status, ghost View, ghost Issued, ghost LastSid, ghost NGen, ghost Clk
+//@   modifies resp.HttpResponse, resp.Status, ghost View, ghost Issued, ghost LastSid, ghost NGen, ghost Clk, ghost NDraw
 //@   ensures  denied: IsDenied(resp) && RespCode(resp) == 16 && DeniedOf(resp) != nil
 //@   ensures  inv: StoreInv(View, Issued)
 //@   ensures  view: OnlyTwo(old(View), View, StoreFor(o.sessions, o.config).pay, oldSessionID, LastSid)
@@ -187,7 +187,7 @@ package authz
 //@   requires wf: HandlerOK(o) && o.httpClient != nil && resp != nil && UrlParses(o.config.GetCallbackUri())
 //@   requires inv: StoreInv(View, Issued)
 //@   requires presented: Presented == SidOf(req.GetAttributes().GetRequest().GetHttp().GetHeaders(), o.config)
-//@   modifies resp.HttpResponse, resp.Status, resp.GetOkResponse().Headers, ghost View, ghost IdP, ghost Clk, ghost Issued, ghost LastSid, ghost NGen
+//@   modifies resp.HttpResponse, resp.Status, resp.GetOkResponse().Headers, ghost View, ghost IdP, ghost Clk, ghost Issued, ghost LastSid, ghost NGen, ghost NDraw
 //@   ensures  noerr: result == nil
 //@   ensures  status: resp.Status != nil
 //@   ensures  inv: StoreInv(View, Issued)
@@ -221,7 +221,7 @@ package authz
 //@ interface Handler method Process(self, ctx, req, resp) err
 //@   requires resp_nonnil: resp != nil
 //@   requires wf: HandlerReady(self)
-//@   modifies resp.HttpResponse, resp.Status, resp.GetOkResponse().Headers, ghost View, ghost IdP, ghost Clk, ghost Issued, ghost LastSid, ghost NGen, ghost NProc, ghost ProcLog, ghost ProcCode
+//@   modifies resp.HttpResponse, resp.Status, resp.GetOkResponse().Headers, ghost View, ghost IdP, ghost Clk, ghost Issued, ghost LastSid, ghost NGen, ghost NDraw, ghost NProc, ghost ProcLog, ghost ProcCode
 //@   ensures  logged: NProc == old(NProc) + 1 && ProcLog == store(old(ProcLog), old(NProc), HandlerCfg(self)) && ProcCode == store(old(ProcCode), old(NProc), ite(err == nil, RespCode(resp), 0 - 1))
 //@   ensures  status: err == nil ==> resp.Status != nil
 
